@@ -115,7 +115,8 @@ PROPS = {
         "level": "proof",
         "lean_modules": ["SqlizeModel.Props.C03"],
         "theorems": ["Sqlize.C03.unchanged_prints_nothing", "Sqlize.C03.same_options_unchanged", "Sqlize.migrate_quiet",
-                     "Sqlize.C03.equal_content_empty", "Sqlize.C03.self_diff_empty", "Sqlize.C03.same_script_empty", "Sqlize.Table.diff_same", "Sqlize.Migration.diff_same"],
+                     "Sqlize.C03.equal_content_empty", "Sqlize.C03.self_diff_empty", "Sqlize.C03.same_script_empty", "Sqlize.C03.equal_schemas_from_scripts",
+                     "Sqlize.hasChangedOptions_of_perm", "Sqlize.ReaderMysql.step_plain", "Sqlize.table_same", "Sqlize.Table.diff_same", "Sqlize.Migration.diff_same"],
         "suites": [{"name": "pair"}, {"name": "struct", "kind": "struct"}],
         "corr_points": ["load-old", "load-new", "state-old", "state-new", "Diff", "state-diff", "StringUp", "StringDown", "StringUp-2nd"],
         "rule": PAIR_RULE,
@@ -125,7 +126,9 @@ PROPS = {
                        "dialect/case/field-order setting, and stay quiet (Sqlize.C03.unchanged_prints_nothing); Diff of two consistent, freshly loaded "
                        "models with equal live content (Table.Same: namesake columns/indexes compare equal, same fk names; order and index-type "
                        "spelling free) returns and leaves nothing to print in either direction (Sqlize.C03.equal_content_empty, self_diff_empty). "
-                       "That two scripts with equal reference schemas load into such models is decided by correspondence + Spec.c03 on the Go output.",
+                       "Two different scripts with equivalent reference schemas (no PRIMARY KEY declarations; column / statement / option order, ALTER histories and "
+                       "index-type spelling free) load into such models: empty migration in both directions (Sqlize.C03.equal_schemas_from_scripts). With "
+                       "PRIMARY KEY declarations (two representations: recorded finding) that is decided by correspondence + Spec.c03 on the Go output.",
     },
     "C13": {
         "level": "proof",
